@@ -190,6 +190,27 @@ theorem c05_pred_model (hrt : HeaderRoundTrip) (s : Start) (ops : List Op)
   simp only [hstart, Bool.not_true, Bool.false_or, hr, Bool.true_and, hinit, hf]
   exact finalOk_model hrt _ hfw
 
+/-- the full statement: the predicate holds of the model on every start state of the property
+    (struct literal satisfying `Inv` with sane fixed fields, or any wire image that decodes, into a
+    fresh or a used receiver) and every operation list after which the block still fits the 16-bit
+    word count.  Proved except for one-byte wire images that carry an element with id 0
+    (`c05_pred_model_partial`); the gap is listed in obligations.d/coreb.json. -/
+def c05_pred_model_full : Prop :=
+  HeaderRoundTrip → ∀ (s : Start) (ops : List Op), startDomain s = true → sizeOk s ops = true →
+    Pred.C05.pred s ops (Pred.C05.modelObs s ops) = true
+
+/-- `c05_pred_model_full` on the covered start states -/
+theorem c05_pred_model_partial (hrt : HeaderRoundTrip) (s : Start) (ops : List Op)
+    (hc : startCovered s = true) (hsz : sizeOk s ops = true) :
+    Pred.C05.pred s ops (Pred.C05.modelObs s ops) = true := by
+  obtain ⟨h, hs, hl, hf⟩ := startCovered_legal s hc
+  have hwf : wf s = true := by simp [wf, hs, legal_noGhost h hl]
+  have hfw : finalWf s ops = true := by
+    simp only [finalWf, finalHeader, hs, Option.map_some]
+    apply finalWfH_of_legal _ (legal_steps ops h hl) (fixedOk_steps ops h hf)
+    simpa [sizeOk, finalHeader, hs] using hsz
+  exact c05_pred_model hrt s ops hwf hfw
+
 /-! ### what "ordered map" means (laws of Spec.OrderedMap, which by `c05_refines` are laws of the
     accessors): last value per id, first-insertion order, deleted ids absent -/
 
@@ -259,9 +280,12 @@ example :
        (false, [3], [(3, some [7]), (5, none)])] := by
   decide +kernel
 
-/-- the hypotheses of `c05_pred_model` are met by a non-trivial input -/
+/-- the hypotheses of `c05_pred_model` / `c05_pred_model_partial` are met by non-trivial inputs: a
+    fresh header, and a one-byte wire image (id 1 = AA BB) decoded into a fresh receiver -/
 example : wf (.hdr { version := 2 }) = true ∧
-    finalWf (.hdr { version := 2 }) [.set 3 [1, 2], .set 5 [9], .del 3] = true := by
+    finalWf (.hdr { version := 2 }) [.set 3 [1, 2], .set 5 [9], .del 3] = true ∧
+    startCovered (.hdr { version := 2 }) = true ∧
+    sizeOk (.hdr { version := 2 }) [.set 3 [1, 2], .set 5 [9], .del 3] = true := by
   decide
 
 /-- Marshal of a legacy header without element is an empty block, not a panic (DESIGN §7 #4) -/
